@@ -4,7 +4,7 @@ import os, sys
 from lib.core import *
 from lib import e2e, meta
 
-LEVEL = 'other'
+LEVEL = 'proof'
 
 
 def run(ck):
